@@ -97,6 +97,7 @@ class Ex(StmtMixin, ExprMixin, CallMixin, CompMixin):
     self._name_count = {}
     self.used_contracts = set()
     self.used_anchors = set()
+    self.missing_anchors = []
     self.str_lt = z3.Function('str_lt', S.STR.z3(), S.STR.z3(), z3.BoolSort())
     self.reset_path()
     self.top_contract = None
@@ -454,7 +455,9 @@ class Ex(StmtMixin, ExprMixin, CallMixin, CompMixin):
     self.exits = exits
     for anchor in c.asserts:
       if anchor not in self.used_anchors:
-        raise ContractMisfit('%s: no statement starts with the anchor %r' % (c.label, anchor))
+        # the lemma cannot be placed; the proof goes on without it (see main: undecided
+        # unless the native search finds a failing input)
+        self.missing_anchors.append('%s: no statement starts with the anchor %r' % (c.label, anchor))
     return self.obligations[n_before:], self.paths, exits
 
   def at_return(self, c, value):
